@@ -319,8 +319,9 @@ fn p_mldrecord(b: &[u8], p: &mut P) {
         p.acc("num_srcs", || f.num_srcs());
         p.acc("mcast_addr", || f.mcast_addr());
         p.acc("payload", || f.payload().len());
+        // MldAddressRecordRepr::parse does not re-check the length: it is covered only after new_checked
+        p.parse("MldAddressRecordRepr::parse", || MldAddressRecordRepr::parse(&f).map(|r| r.buffer_len()));
     }
-    p.parse("MldAddressRecordRepr::parse", || MldAddressRecordRepr::parse(&MldAddressRecord::new_unchecked(b)).map(|r| r.buffer_len()));
 }
 fn p_ndiscopt(b: &[u8], p: &mut P) {
     if p.chk(|| NdiscOption::new_checked(b)) {
@@ -449,6 +450,21 @@ fn p_dhcp(b: &[u8], p: &mut P) {
         DhcpRepr::parse(&pk).map(|r| r.buffer_len())
     });
 }
+/// labels of a name until the first error / end; a fallible iterator keeps yielding Err after an error,
+/// so the caller (like the DNS socket's try_for_each) stops there.  More labels than octets = a loop.
+fn name_labels<'a>(it: impl Iterator<Item = std::result::Result<&'a [u8], Error>>, limit: usize) -> usize {
+    let mut n = 0;
+    for x in it {
+        if x.is_err() {
+            break;
+        }
+        n += 1;
+        if n > limit + 1 {
+            panic!("parse_name yields more labels than the packet has octets");
+        }
+    }
+    n
+}
 fn p_dns(b: &[u8], p: &mut P) {
     if p.chk(|| DnsPacket::new_checked(b)) {
         let f = DnsPacket::new_unchecked(b);
@@ -465,7 +481,7 @@ fn p_dns(b: &[u8], p: &mut P) {
             for _ in 0..f.question_count().min(8) {
                 match DnsQuestion::parse(payload) {
                     Ok((rest, q)) => {
-                        n += f.parse_name(q.name).count();
+                        n += name_labels(f.parse_name(q.name), b.len());
                         payload = rest
                     }
                     Err(_) => return n,
@@ -474,9 +490,9 @@ fn p_dns(b: &[u8], p: &mut P) {
             for _ in 0..f.answer_record_count().min(16) {
                 match DnsRecord::parse(payload) {
                     Ok((rest, r)) => {
-                        n += f.parse_name(r.name).count();
+                        n += name_labels(f.parse_name(r.name), b.len());
                         if let DnsRecordData::Cname(name) = r.data {
-                            n += f.parse_name(name).count();
+                            n += name_labels(f.parse_name(name), b.len());
                         }
                         payload = rest
                     }
@@ -490,7 +506,7 @@ fn p_dns(b: &[u8], p: &mut P) {
             let mut n = 0usize;
             let lim = b.len().min(96);
             for off in 0..lim {
-                n += f.parse_name(&b[off..]).take(300).count();
+                n += name_labels(f.parse_name(&b[off..]), b.len());
             }
             n
         });
@@ -1057,7 +1073,9 @@ fn start_watchdog(w: Arc<Watch>) {
             } else if t % 2 == 1 && last.1.elapsed().as_secs() >= 5 {
                 // odd tick = inside a probe that has not finished for 5 s
                 let (name, bytes) = w.cur.lock().unwrap().clone();
-                let so = std::io::stdout();
+                // stdout is locked by the main thread for the whole run: report on stderr
+                // (./check reads both)
+                let so = std::io::stderr();
                 let mut o = so.lock();
                 writeln!(o, "FAILCASE").unwrap();
                 writeln!(o, "case w-nonterm fmt=oracle kind=c07 type={}\nbytes {}\nend", name, hex(&bytes)).unwrap();
